@@ -375,3 +375,75 @@ package codegen
 //@   ensures [nan] isnan(f) ==> isnan(fromhalfbits(uint16(result))) && result <= 0xffff
 //@   pure
 //@   nopanic
+
+// ---- unary operators, conversions, atomics (C01) ----------------------------------------------
+//
+// WGSL `-x` is OpFNegate on floats and OpSNegate on integers (two's complement,
+// also for u32); `!b` is OpLogicalNot; `~x` is OpNot. The single AddUnaryOp of
+// emitUnary is checked against the row selected by (unary.Op, scalarKind).
+//
+//@ func (*ExpressionEmitter).emitUnary
+//@   mode bv
+//@   tags C01
+//@   at (*ModuleBuilder).AddUnaryOp assert [negate] unary.Op == ir.UnaryNegate ==> arg1 == ite(scalarKind == ir.ScalarFloat, OpFNegate, OpSNegate)
+//@   at (*ModuleBuilder).AddUnaryOp assert [logical-not] unary.Op == ir.UnaryLogicalNot ==> arg1 == OpLogicalNot
+//@   at (*ModuleBuilder).AddUnaryOp assert [bitwise-not] unary.Op == ir.UnaryBitwiseNot ==> arg1 == OpNot
+//@   at (*ModuleBuilder).AddUnaryOp assert [operands] arg2 == resultType && arg3 == operandID
+//
+// Value conversions T(e): the SPIR-V conversion instruction for (source kind,
+// destination kind); same-width integer reinterpretation is OpBitcast.
+//
+//@ func selectConversionOp
+//@   mode bv
+//@   tags C01 C08
+//@   ensures [u2f] src == ir.ScalarUint && dst == ir.ScalarFloat ==> result0 == OpConvertUToF && result1 == nil
+//@   ensures [s2f] src == ir.ScalarSint && dst == ir.ScalarFloat ==> result0 == OpConvertSToF && result1 == nil
+//@   ensures [f2u] src == ir.ScalarFloat && dst == ir.ScalarUint ==> result0 == OpConvertFToU && result1 == nil
+//@   ensures [f2s] src == ir.ScalarFloat && dst == ir.ScalarSint ==> result0 == OpConvertFToS && result1 == nil
+//@   ensures [f2f] src == ir.ScalarFloat && dst == ir.ScalarFloat ==> result0 == OpFConvert && result1 == nil
+//@   ensures [int-reinterpret] ((src == ir.ScalarSint && dst == ir.ScalarUint) || (src == ir.ScalarUint && dst == ir.ScalarSint)) && srcWidth == dstWidth ==> result0 == OpBitcast && result1 == nil
+//@   ensures [s2s] src == ir.ScalarSint && dst == ir.ScalarSint ==> result0 == OpSConvert && result1 == nil
+//@   ensures [u2u] src == ir.ScalarUint && dst == ir.ScalarUint ==> result0 == OpUConvert && result1 == nil
+//@   pure
+//@   nopanic
+//
+// Atomic read-modify-write functions: signedness selects SMin/UMin, SMax/UMax.
+//
+//@ func atomicOpcode
+//@   mode bv
+//@   tags C01
+//@   ensures [add] is(fun, ir.AtomicAdd) ==> result1 && result0 == ite(scalarKind == ir.ScalarFloat, OpAtomicFAddEXT, OpAtomicIAdd)
+//@   ensures [sub] is(fun, ir.AtomicSubtract) ==> result1 && result0 == OpAtomicISub
+//@   ensures [and] is(fun, ir.AtomicAnd) ==> result1 && result0 == OpAtomicAnd
+//@   ensures [or] is(fun, ir.AtomicInclusiveOr) ==> result1 && result0 == OpAtomicOr
+//@   ensures [xor] is(fun, ir.AtomicExclusiveOr) ==> result1 && result0 == OpAtomicXor
+//@   ensures [min] is(fun, ir.AtomicMin) ==> result1 && result0 == ite(scalarKind == ir.ScalarSint, OpAtomicSMin, OpAtomicUMin)
+//@   ensures [max] is(fun, ir.AtomicMax) ==> result1 && result0 == ite(scalarKind == ir.ScalarSint, OpAtomicSMax, OpAtomicUMax)
+//@   ensures [exchange] is(fun, ir.AtomicExchange) ==> result1 && result0 == OpAtomicExchange
+//@   pure
+//@   nopanic
+//
+//@ consts C01
+//@ const OpConvertFToU 109
+//@ const OpConvertFToS 110
+//@ const OpConvertSToF 111
+//@ const OpConvertUToF 112
+//@ const OpUConvert 113
+//@ const OpSConvert 114
+//@ const OpFConvert 115
+//@ const OpBitcast 124
+//@ const OpSNegate 126
+//@ const OpFNegate 127
+//@ const OpLogicalNot 168
+//@ const OpNot 200
+//@ const OpAtomicExchange 229
+//@ const OpAtomicIAdd 234
+//@ const OpAtomicISub 235
+//@ const OpAtomicSMin 236
+//@ const OpAtomicUMin 237
+//@ const OpAtomicSMax 238
+//@ const OpAtomicUMax 239
+//@ const OpAtomicAnd 240
+//@ const OpAtomicOr 241
+//@ const OpAtomicXor 242
+//@ const OpAtomicFAddEXT 6035
